@@ -146,7 +146,8 @@ var $newType = (size, kind, string, named, pkg, exported, constructor) => {
             typ.init = (elem, len) => {
                 typ.elem = elem;
                 typ.len = len;
-                typ.comparable = elem.comparable;
+                // Computed on demand: the element type may be initialized after this one.
+                Object.defineProperty(typ, "comparable", { get() { return elem.comparable; }, configurable: true });
                 typ.keyFor = x => {
                     // Array.prototype.map (unlike $mapArray) yields a plain array even when x is a
                     // typed array, which could not hold the per-element key strings.
@@ -259,11 +260,8 @@ var $newType = (size, kind, string, named, pkg, exported, constructor) => {
             typ.init = (pkgPath, fields) => {
                 typ.pkgPath = pkgPath;
                 typ.fields = fields;
-                fields.forEach(f => {
-                    if (!f.typ.comparable) {
-                        typ.comparable = false;
-                    }
-                });
+                // Computed on demand: field types may be initialized after this one.
+                Object.defineProperty(typ, "comparable", { get() { return fields.every(f => f.typ.comparable); }, configurable: true });
                 typ.keyFor = x => {
                     var val = x.$val;
                     return $mapArray(fields, f => {
